@@ -17,3 +17,16 @@ func Dir() string {
 func Path(elem ...string) string {
 	return filepath.Join(append([]string{Dir()}, elem...)...)
 }
+
+// Repo is the tree of dcaiafa/lox under test: /repo, or $VERIF_REPO (a scratch
+// worktree, used when seeded changes are tried without touching /repo).
+func Repo() string {
+	if d := os.Getenv("VERIF_REPO"); d != "" {
+		return d
+	}
+	return "/repo"
+}
+
+func RepoPath(elem ...string) string {
+	return filepath.Join(append([]string{Repo()}, elem...)...)
+}
